@@ -32,7 +32,8 @@ RULE = ("(solver class, K, antennas, streams, scalar|vector power over 3 "
         "solver on 2-3 user channels; afterwards the wrapped solver must satisfy "
         "all relations at the requested power."
         "One stream-search case in eight is an over-loaded request (K=3, 3x3, 2 streams, high SNR) that the greedy wrapper reduces to one stream each before being used again. "
-        "Op new-stream-counts installs precoders and filters with other stream counts through the setters. ")
+        "Op new-stream-counts installs precoders and filters with other stream counts through the setters. "
+        "The stream-count array passed to solve() is re-used by the caller right after the call. ")
 ASSUMPTIONS = [
     "identity tolerance 1e3 eps kappa(W_H H_kk full_F); closed-form nulling "
     "1e-9 relative to ||W_H|| ||H_kl|| ||F_l|| times kappa of the channels",
@@ -176,7 +177,18 @@ def solve_call(ctx, s, name, Ns, P, tag):
         if name == "closed":
             s.solve(int(Ns[0]), P)
         else:
-            s.solve(np.array(Ns) if len(set(Ns)) > 1 else int(Ns[0]), P)
+            ns_arg = np.array(Ns) if (len(set(Ns)) > 1 or hash((tuple(Ns), name)) % 3 == 0) \
+                else int(Ns[0])
+            s.solve(ns_arg, P)
+            if isinstance(ns_arg, np.ndarray):
+                # the array the caller passed is the caller's: re-used for something
+                # else right away, it must not change what the solver reports
+                ns_arg += 5
+                got_ns = [int(x) for x in np.asarray(s.Ns)]
+                fin = [int(np.asarray(f).shape[1]) for f in s.F]
+                ctx.ev("shapes-and-stream-counts", got_ns == fin,
+                       cls=name + ":Ns-follows-the-caller's-array",
+                       detail={**tag, "Ns_reported": got_ns, "precoder_columns": fin})
         # the power the caller asked for is the power of the solution
         K = len(Ns)
         want = np.ones(K) if P is None else np.broadcast_to(np.asarray(P, dtype=float), (K,))
